@@ -77,6 +77,7 @@ def stepG0 (s : G0) : Op → Res (Resp × G0)
         if l < f.buf.length then .error (.panic "advanced past end of limit") else
         .ok (.bytes f.buf, { s with limit := some (l - f.buf.length), frames := fs' })
       | none => .ok (.bytes f.buf, { s with limit := none, frames := fs' })
+  | .getPos => .ok (.nat s.data.length, s)
 
 def runG0 : Prog α → G0 → Res (α × G0)
   | .ret a, s => .ok (a, s)
@@ -229,6 +230,7 @@ theorem step_sim0 (g : G) (o : Op) (r : Resp) (g' : G) (h : stepG g o = .ok (r, 
         by_cases hl : l < f.buf.length
         · simp [hl] at h
         · simp [hl] at h ⊢; obtain ⟨h1, h2⟩ := h; subst h1; subst h2; cases fs <;> simp
+  | getPos => simp [stepG] at h; obtain ⟨h1, h2⟩ := h; subst h1; subst h2; simp [stepG0, G.erase]
 
 /-- whenever the contract-checking layer succeeds, so does the plain one, identically -/
 theorem sim0_ok (p : Prog α) : ∀ (g : G) (a : α) (g' : G), runG p g = .ok (a, g') →
@@ -388,6 +390,7 @@ theorem step_view0 (g : G0) (hf : g.frames = []) (o : Op) (ho : o.isAccess) :
            fun e h => by simp at h⟩
   | capBegin => exact absurd ho (by simp [Op.isAccess])
   | capEnd => exact absurd ho (by simp [Op.isAccess])
+  | getPos => exact absurd ho (by simp [Op.isAccess])
 
 theorem G0.advance_len (g g' : G0) (n : Nat) (h : g.advance n = .ok g') : g'.data.length ≤ g.data.length := by
   unfold G0.advance at h
@@ -447,6 +450,7 @@ theorem stepG0_data_le (g : G0) (o : Op) (r : Resp) (g' : G0) (h : stepG0 g o = 
   | setLimit l => simp [stepG0] at h; rw [← h.2]; exact Nat.le_refl _
   | reqCapped n => simp [stepG0] at h; rw [← h.2]; exact Nat.le_refl _
   | capBegin => simp [stepG0] at h; rw [← h.2]; exact Nat.le_refl _
+  | getPos => simp [stepG0] at h; rw [← h.2]; exact Nat.le_refl _
 
 /-- the data of a source never grows -/
 theorem runG0_data_le (p : Prog α) : ∀ (g : G0) (a : α) (g' : G0), runG0 p g = .ok (a, g') →
